@@ -710,10 +710,10 @@ def gen_cond(r: Any, local: list[str], depth: int = 2) -> tuple:
 
 
 def gen_expr(r: Any, local: list[str]) -> tuple:
-    if r.random() < 0.15:
-        e: tuple = ("tern", gen_fexpr(r, local, allow_arr=False, depth=1), gen_cond(r, local, 1),
-                    gen_fexpr(r, local, allow_arr=False, depth=1))
-        if r.random() < 0.4:
+    if r.random() < 0.18:
+        alt = gen_fexpr(r, local, allow_arr=False, depth=1) if r.random() < 0.6 else None   # `x if cond` without else is nil
+        e: tuple = ("tern", gen_fexpr(r, local, allow_arr=r.random() < 0.2, depth=1), gen_cond(r, local, 1), alt)
+        for _ in range(r.choice([0, 0, 1, 1, 2])):
             f = r.choice(FILTERS)
             pos, kw = ARGS_OF[f](r, lambda: gen_prim(r, local=local))
             e = ("filter", e, f, pos, kw)
@@ -831,6 +831,73 @@ def site_programs() -> list[tuple[list[tuple], dict[str, Any]]]:
         progs.append([("out", ("filter", p, "default", [L("D")], []))])
     data = dict(BASE)
     return [(p, data) for p in progs]
+
+
+DDATA = {"a": 3, "s": "ab", "n": 3, "l": [3, 1, 2], "f": False, "t": True, "z": None, "e": "", "el": [],
+         "an": [None], "an2": [1, None], "af": [False], "a0": [0], "ae": [], "ans": ["", None], "x1": 7, "d": {"p": "x"}}
+
+
+def directed_programs() -> list[tuple[list[tuple], dict[str, Any]]]:
+    """Run in full in every tier (never sampled).
+
+    (a) the inline conditional WITHOUT else: a false condition gives nil under
+        every policy - in particular the strict policies do not raise when
+        every referenced variable exists - also with tail filters applied to
+        the result, a filtered / array-literal left side, and through assign,
+        echo and capture;
+    (b) membership and equality decided by Python == (not the Liquid _eq):
+        arrays that hold nil / false / 0 searched for a missing operand, and
+        array literals that contain the missing variable searched for nil."""
+    progs: list[list[tuple]] = []
+    T_, F_ = [("text", "T")], [("text", "F")]
+    # (a)
+    conds = [P("f"), P("t"), L(False), L(None), P("z"), ("cmp", "eq", P("a"), P("s")), ("not", P("t")),
+             ("and", P("t"), P("f")), ("cmp", "contains", P("l"), L(9)), M, P("x1"), ("cmp", "lt", P("a"), L(1))]
+    lefts = [P("s"), P("n"), P("l"), ("filter", P("s"), "upcase", [], []), ("arr", [P("n"), P("s")]), P("x1"), M]
+    tails: list[list[tuple]] = [[], [("default", [L("d")], [])], [("upcase", [], [])], [("size", [], [])], [("append", [L("x")], [])],
+                                [("join", [L("-")], [])], [("first", [], [])], [("plus", [L(1)], [])],
+                                [("default", [L("d")], [("allow_false", L(True))])], [("size", [], []), ("plus", [P("n")], [])],
+                                [("sort", [], []), ("size", [], [])], [("concat", [P("l")], []), ("size", [], [])]]
+    for ci, cond in enumerate(conds):
+        for li, left in enumerate(lefts):
+            prog: list[tuple] = []
+            for ti, tail in enumerate(tails):
+                if (ci + li + ti) % 3 and not (li == 0 and ti < 4) and ti:
+                    continue                   # a third of the grid, plus the bare form and a full axis
+                e: tuple = ("tern", left, cond, None)
+                for f, pos, kw in tail:
+                    e = ("filter", e, f, pos, kw)
+                prog += [("text", "["), ("out", e), ("text", "]")]
+            progs.append(prog)
+    for cond in conds:
+        e = ("tern", P("s"), cond, None)
+        progs.append([("assign", "v", e), ("text", "["), ("out", P("v")), ("text", "]"),
+                      ("out", ("filter", P("v"), "default", [L("d")], [])), ("if", P("v"), T_, F_),
+                      ("if", ("cmp", "eq", P("v"), L(None)), T_, F_)])
+        progs.append([("assign", "v", ("filter", e, "size", [], [])), ("out", P("v")),
+                      ("echo", e), ("text", "|"), ("echo", ("filter", e, "upcase", [], []))])
+        progs.append([("capture", "cp", [("out", e)]), ("out", ("filter", P("cp"), "size", [], [])),
+                      ("for", "i", P("l"), None, [("out", ("tern", P("i"), cond, None))], None)])
+    # (b)
+    arrs = [P("an"), P("an2"), P("af"), P("a0"), P("ae"), P("ans"), P("l")]
+    needles = [M, P("x1"), P("z"), L(None), L(False), L(0), P("d", "nope")]
+    for arr in arrs:
+        for nd in needles:
+            progs.append([("if", ("cmp", "contains", arr, nd), T_, F_), ("if", ("cmp", "in", nd, arr), T_, F_),
+                          ("unless", ("cmp", "contains", arr, nd), T_, F_),
+                          ("out", ("tern", L("y"), ("cmp", "in", nd, arr), L("n")))])
+    lits = [[P("n"), M], [P("z"), M], [P("f"), M], [M, M], [M, P("n")], [P("x1"), P("n")], [P("x1"), P("z")], [M, P("z")]]
+    for lit in lits:
+        for nd in [L(None), P("z"), L(False), M, P("n"), P("x1"), L(0)]:
+            progs.append([("assign", "v", ("arr", lit)), ("if", ("cmp", "contains", P("v"), nd), T_, F_),
+                          ("if", ("cmp", "in", nd, P("v")), T_, F_)])
+        for other in ([P("n"), P("z")], [P("z"), P("z")], [P("f"), P("z")], [P("n"), M], [L(None), L(None)]):
+            progs.append([("assign", "v", ("arr", lit)), ("assign", "w", ("arr", other)),
+                          ("if", ("cmp", "eq", P("v"), P("w")), T_, F_), ("if", ("cmp", "ne", P("w"), P("v")), T_, F_)])
+        progs.append([("assign", "v", ("arr", lit)), ("out", ("filter", ("filter", P("v"), "uniq", [], []), "size", [], [])),
+                      ("out", ("filter", ("filter", P("v"), "compact", [], []), "size", [], []))])
+        progs.append([("assign", "v", ("arr", lit)), ("case", L(None), [([P("v", 0), P("v", 1)], T_)], F_)])
+    return [(p, DDATA) for p in progs]
 
 
 def lazy_programs() -> list[tuple[list[tuple], dict[str, Any], list[tuple]]]:
@@ -1195,17 +1262,22 @@ def main(chk: C.Check, build: C.Build) -> None:
     # 1. programs of the modelled fragment x data x deleted subsets
     cases: list[tuple[list[tuple], dict[str, Any], tuple, bool]] = []
     site = site_programs()
-    site = [x for x in site if r.random() < (0.5 if thorough else 0.05)]
+    site = [x for x in site if r.random() < (0.5 if thorough else 0.03)]
     for prog, data in site:
         for sub, d in deletions(prog, data, r, 2, 2):
             cases.append((prog, d, sub, False))
-    nprog = 450 if thorough else 100
+    nprog = 450 if thorough else 80
     for i in range(nprog):
         prog = gen_block(r, [], depth=3 if thorough else 2, n=r.choice([1, 2, 2, 3]))
         dels = deletions(prog, BASE, r, 4, 12 if thorough else 3)
         if not thorough and len(dels) > 8:
             dels = dels[:1] + r.sample(dels[1:], 7)
         for sub, d in dels:
+            cases.append((prog, d, sub, False))
+    # directed programs, never sampled: else-less inline conditionals; Python-== membership
+    directed = directed_programs()
+    for prog, data in directed:
+        for sub, d in deletions(prog, data, r, 4 if thorough else 0, 0):
             cases.append((prog, d, sub, False))
     # every short-circuit site, with every subset of its references deleted
     lazy = lazy_programs()
@@ -1216,7 +1288,7 @@ def main(chk: C.Check, build: C.Build) -> None:
             cases.append((prog, d, sub, True))
 
     items = []
-    dist = {"programs": len(site) + nprog + len(lazy), "ok": 0, "UndefinedError": 0, "other_error": 0, "miss": 0,
+    dist = {"programs": len(site) + nprog + len(lazy) + len(directed), "ok": 0, "UndefinedError": 0, "other_error": 0, "miss": 0,
             "strict_ok_with_missing": 0, "falsy_ok_strict_raises": 0}
     nontrivial = set()
     samples = []
@@ -1309,12 +1381,16 @@ def main(chk: C.Check, build: C.Build) -> None:
     # 2. kernel-level tie
     kitems = dunder_cases()
     kall = kernel_cases(r, thorough)
-    kitems += [k for k in kall if r.random() < (0.3 if thorough else 0.09)]
+    def must(k: dict[str, Any]) -> bool:
+        # Python == between an undefined and nil / false, in every policy: never sampled away
+        a = k["replay"]["args"]
+        return k["replay"]["kernel"] in ("_eq", "_contains") and "Undefined(" in a and ("None" in a or "False" in a)
+    kitems += [k for k in kall if must(k) or r.random() < (0.3 if thorough else 0.07)]
 
     # 3. oracle beyond the model
     nbeyond = 0
     for src, data, complete in all_filter_sources():
-        if not thorough and r.random() > 0.3:
+        if not thorough and r.random() > 0.22:
             continue
         for ae in (False, True):
             outs = {pol: render_impl(src, data, pol, ae) for pol in POLS}
@@ -1334,7 +1410,7 @@ def main(chk: C.Check, build: C.Build) -> None:
     C.correspond(chk, "c16", IMPORTS, defs, items, what="Undefined.render", shard=150)
     # how many template cases did the model decide (not [outside])?  measured on
     # a seeded sample
-    probe = [it for it in items if r.random() < (0.2 if thorough else 0.2)]
+    probe = [it for it in items if r.random() < (0.2 if thorough else 0.12)]
     rc = C.run_cases("c16in", IMPORTS, defs, [it["inside"] for it in probe], shard=150)
     inside = len(probe) - len(rc["bad"])
     for e in rc["errors"]:
@@ -1360,6 +1436,7 @@ def main(chk: C.Check, build: C.Build) -> None:
         "kernel_cases": len(kitems),
         "roots_cases": len(ritems),
         "lazy_site_programs": len(lazy),
+        "directed_programs": len(directed),
         "lazy_deletion_comparisons": nlazy,
         "oracle_only_sources": nbeyond,
         "exhaustive": False,
